@@ -279,3 +279,67 @@ def run(ctx):
     xn = aos.params()[0]
     ctx.check("R03.3", f"{aos.key}::summands are linearized with the incoming want_metric",
               f"Linearization.make_var({xn}.val.extract(oo.domain), {xn}.want_metric)" in src(aos.node), None, aos)
+
+
+def r03_45(ctx):
+    m = ctx.model
+    JO = "nifty.cl.operators.jax_operator"
+    ES = "nifty.cl.operators.einsum"
+    ctx.rule("R03.4", "JAX wrappers: the adjoint of the Jacobian is the conjugate transpose - the transposed (vjp) function is applied "
+                      "to the conjugated cotangent and the result is conjugated again; the forward branch applies the function "
+                      "unchanged", floor=2)
+    J = m.cls(JO, "JaxLinearOperator")
+    ctx.saw_class(J)
+    ap = J.methods["apply"]
+    ctx.saw_func(ap)
+    from ..modespec import Spec
+    xn, mn = ap.params()[1:3]
+    for mode in (1, 2):
+        sp = Spec(m, J, ap, {mn: mode}).run()
+        key = f"{ap.key}::mode {mode}"
+        if len(sp.returns) != 1:
+            ctx.und("R03.4", key, f"{len(sp.returns)} returns", ap)
+            continue
+        e = sp.returns[0][0]
+        t = src(e)
+        if mode == 1:
+            ctx.check("R03.4", key + ": forward applies func to x", "self._func(" in t and "conjugate" not in t and "self._func_T" not in t
+                      and t.startswith("makeField(self._target"), t, ap)
+        else:
+            inner_conj = f"self._func_T(_anyarray2jax({xn}.conjugate().val))" in t or f"self._func_T(_anyarray2jax({xn}.val.conjugate()))" in t \
+                or f"self._func_T(_anyarray2jax({xn}.conj().val))" in t
+            outer_conj = t.endswith(".conjugate()") or t.endswith(".conj()")
+            ctx.check("R03.4", key + ": adjoint = conj(func_T(conj(x))) on the domain", inner_conj and outer_conj and t.startswith("makeField(self._domain"),
+                      f"{t}: {'cotangent conjugated' if inner_conj else 'cotangent NOT conjugated'}, "
+                      f"{'result conjugated' if outer_conj else 'result NOT conjugated (wrong for complex domains, invisible for real ones)'}", ap)
+
+    ctx.rule("R03.5", "MultiLinearEinsum: value and Jacobian look the factors up with the same precedence (current position first, "
+                      "static fields only for keys that are not part of the input)", floor=1)
+    M = m.cls(ES, "MultiLinearEinsum")
+    ctx.saw_class(M)
+    ap = M.methods["apply"]
+    ctx.saw_func(ap)
+    # lookups of the form  A[k] if k in A else B[k]  (possibly with .val suffixes)
+    looks = []
+    for n in ast.walk(ap.node):
+        if isinstance(n, ast.IfExp) and isinstance(n.test, ast.Compare) and len(n.test.ops) == 1 and isinstance(n.test.ops[0], ast.In) \
+                and isinstance(n.body, ast.Subscript) and src(n.body.slice) == src(n.test.left):
+            first = src(n.test.comparators[0])
+            other = src(n.orelse)
+            looks.append((("static" if "_stat_mf" in first or first.startswith("stat") else "position"),
+                          ("static" if "_stat_mf" in other or other.startswith("stat") else "position"), n))
+    key = f"{ap.key}::factor lookups prefer the position over static fields, in the value and in every partial Jacobian"
+    if len(looks) < 2:
+        ctx.und("R03.5", key, f"{len(looks)} lookups recognised", ap)
+    else:
+        ctx.check("R03.5", key, all(a == "position" and b == "static" for a, b, n in looks),
+                  f"{[(a, b, src(n)[:60]) for a, b, n in looks]}: a lookup that prefers the static fields builds the Jacobian from stale "
+                  "factors when the static fields also contain input keys", ap)
+
+
+_run_c03 = run
+
+
+def run(ctx):  # noqa: F811
+    _run_c03(ctx)
+    r03_45(ctx)
